@@ -17,7 +17,7 @@ def PC.condRec : PC → Option (Wid × Option Cond)
   | .usReLd r _ | .usReCas r _ _ | .usFinLd r _ | .usFinCas r _ _ | .usWakeSt r _ _ | .usWakeV r _ _ => r.condRec
   | .mwRcLd c | .mwEnqLd c | .mwEnqCas c _ | .mwRelLd c | .mwRelCas c _ _ | .mwWaitLd c
   | .mwSem c | .mwPdRet c _ | .mwNotify c | .mwLd244 c | .mwLd255 c
-  | .mtLd c | .mtCasAcq c _ | .mtCasWW c _ | .mtLdW c _ | .mtLdRc c _ | .mtRmLd c _ | .mtRmCas c _ _ | .mtStW c _ | .mtStRel c _ _ =>
+  | .mtLd c | .mtCasAcq c _ | .mtCasWW c _ | .mtLdWk c _ | .mtLdW c _ | .mtLdRc c _ | .mtRmLd c _ | .mtRmCas c _ _ | .mtStW c _ | .mtStRel c _ _ =>
     c.w.map (fun k => (k, c.cond))
   | _ => none
 
